@@ -49,11 +49,6 @@ theorem slideLoop_err {basis : Array W} {p : Pos} {top : Piece} {stack : W} {dx 
     · rename_i e' he; cases h; exact slideStep_err he
     · exact ih h
 
-theorem toMove_cases (p : Pos) : p.toMove = .white ∨ p.toMove = .black := by
-  unfold Pos.toMove; split
-  · exact .inl rfl
-  · exact .inr rfl
-
 theorem slideFrom_err {basis : Array W} {p next : Pos} {m : Move} {i : Nat} {dx dy : Int} {e : Err}
     (h : slideFrom basis p next m i dx dy = .error e) : e.benign := by
   unfold slideFrom at h
